@@ -45,6 +45,7 @@ def parseOps (s : String) : Option (List (Nat × Q)) :=
 structure Ctx where
   nodes : List (Nat × Node Nat Q) := []
   vals : List (Nat × Bounds Q) := []
+  leaves : List (Nat × Bounds Q) := []   -- asserted data (`set`), restored by `resetb`
 
 def defaultNode : Node Nat Q := { kind := .atom, bias := 1, alpha := 1 }
 
@@ -95,8 +96,13 @@ def step (c : Ctx) (line : String) : Ctx × String :=
   | ["set", id, l, u] =>
     match id.toNat?, parseRat l, parseRat u with
     | some i, some l, some u =>
-      ({ c with vals := c.vals.filter (·.1 != i) ++ [(i, ⟨l, u⟩)] }, "ok")
+      ({ c with vals := c.vals.filter (·.1 != i) ++ [(i, ⟨l, u⟩)],
+                leaves := c.leaves.filter (·.1 != i) ++ [(i, ⟨l, u⟩)] }, "ok")
     | _, _, _ => bad
+  | ["resetb"] =>
+    -- `Model.reset_bounds`: every formula returns to its asserted data (default: unknown)
+    ({ c with vals := c.nodes.map fun p =>
+        (p.1, match c.leaves.find? (·.1 == p.1) with | some l => l.2 | none => ⟨0, 1⟩) }, "ok")
   | ["up", id] =>
     match id.toNat? with
     | some i =>
